@@ -454,6 +454,8 @@ def model_obs(case, ans):
 
 
 def shrink_candidates(case):
+    if 'ops' not in case:
+        return
     ops = case['ops']
     for i in range(len(ops)):
         c = dict(case)
